@@ -70,7 +70,7 @@ inline std::vector<uint8_t> applyDamage(const std::vector<uint8_t>& bytes, const
 }
 
 inline std::vector<uint64_t> boundaryValues(uint64_t orig, int width, uint64_t fileLen, uint64_t remaining) {
-	static const uint64_t base[] = {0, 1, 2, 3, 4, 7, 8, 13, 14, 15, 0x7F, 0x80, 0xFF, 0x7FFF, 0x8000, 0xFFFF, 0x7FFFFFFF, 0x80000000ull, 0x80000001ull, 0x8000000Eull,
+	static const uint64_t base[] = {0, 1, 2, 3, 4, 7, 8, 13, 14, 15, 16, 17, 31, 32, 33, 63, 64, 65, 0x7F, 0x80, 0xFF, 0x100, 0x101, 0x7FFF, 0x8000, 0xFFFF, 0x10000, 0x7FFFFFFF, 0x80000000ull, 0x80000001ull, 0x8000000Eull,
 	                                0xFFFFFFF0ull, 0xFFFFFFF1ull, 0xFFFFFFF2ull, 0xFFFFFFF3ull, 0xFFFFFFF4ull, 0xFFFFFFF5ull, 0xFFFFFFF6ull, 0xFFFFFFF7ull,
 	                                0xFFFFFFF8ull, 0xFFFFFFF9ull, 0xFFFFFFFAull, 0xFFFFFFFBull, 0xFFFFFFFCull, 0xFFFFFFFDull, 0xFFFFFFFEull, 0xFFFFFFFFull};
 	std::vector<uint64_t> v(base, base + sizeof base / sizeof base[0]);
